@@ -101,7 +101,7 @@ where
     }
 
     fn open_file(&self, path: &str) -> VfsResult<Box<dyn SeekAndRead + Send>> {
-        match T::get(path.split_at(1).1) {
+        match T::get(normalize_path(path)?) {
             None => Err(VfsErrorKind::FileNotFound.into()),
             Some(file) => Ok(Box::new(Cursor::new(file.data))),
         }
@@ -118,7 +118,7 @@ where
     fn metadata(&self, path: &str) -> VfsResult<VfsMetadata> {
         let normalized_path = normalize_path(path)?;
         if let Some(len) = self.files.get(normalized_path) {
-            return match T::get(path.split_at(1).1) {
+            return match T::get(normalized_path) {
                 None => Err(VfsErrorKind::FileNotFound.into()),
                 Some(file) => Ok(VfsMetadata {
                     file_type: VfsFileType::File,
